@@ -369,13 +369,17 @@ pub fn check(ctx: &Ctx) -> i32 {
             for v1 in 0..3usize {
                 for v2 in 0..3usize {
                     for (l1, l2) in [(5usize, 13usize), (13, 5), (300, 2)] {
-                        pairs.push((p1, p2, v1, v2, l1, l2));
+                        // the second frame 0.02 s later, or on the first frame's tick (audio
+                        // timestamps need only be non-decreasing: still one sample per frame)
+                        for same_tick in [false, true] {
+                            pairs.push((p1, p2, v1, v2, l1, l2, same_tick));
+                        }
                     }
                 }
             }
         }
     }
-    let t4 = par_items(&pairs, ctx.seed, |idx, &(p1, p2, v1, v2, l1, l2), t| {
+    let t4 = par_items(&pairs, ctx.seed, |idx, &(p1, p2, v1, v2, l1, l2, same_tick), t| {
         t.evaluations += 1;
         let mk = |prot: bool, var: usize, len: usize, seed: u8| {
             let hl = if prot { 9 } else { 7 };
@@ -384,11 +388,11 @@ pub fn check(ctx: &Ctx) -> i32 {
             f
         };
         let (f1, f2) = (mk(p1, v1, l1, 0xa0), mk(p2, v2, l2, 0xb0));
-        let cfg = Cfg::basic(VCodec::H264, Some(ACodec::AacLc), idx % 2 == 0);
+        let cfg = Cfg::basic(VCodec::H264, Some(ACodec::AacLc), (idx / 2) % 2 == 0);
         let (k, _) = video_frame(VCodec::H264, true, true, 1, 4);
-        let ops = vec![Op::WV { pts: T(0.0), data: Bytes::new(k), key: true }, Op::WA { pts: T(0.0), data: Bytes::new(f1.clone()) }, Op::WA { pts: T(0.02), data: Bytes::new(f2.clone()) }];
+        let ops = vec![Op::WV { pts: T(0.0), data: Bytes::new(k), key: true }, Op::WA { pts: T(0.0), data: Bytes::new(f1.clone()) }, Op::WA { pts: T(if same_tick { 0.0 } else { 0.02 }), data: Bytes::new(f2.clone()) }];
         let ex = run_finished(&cfg, &ops);
-        let case = || json!({"engine": "E2-adts-pair", "first": hex(&f1), "second": hex(&f2)});
+        let case = || json!({"engine": "E2-adts-pair", "first": hex(&f1), "second": hex(&f2), "same_tick": same_tick});
         let order = (30_000 + idx as u64, 0);
         if let Some((i, m)) = ex.panicked() {
             t.violation("C14/adts-pair/panic", order, || format!("call {i}: {m}"), case);
@@ -420,7 +424,7 @@ pub fn check(ctx: &Ctx) -> i32 {
         &tally,
         Meta {
             level: "exploration",
-            rule: format!("every byte string of length <= {l3} over {{00,01,02}} and <= {l5} over {{00,01,03,65,FF}} through AnnexBNalIter, annexb_to_avcc and hevc_annexb_to_hvcc, compared with a reference splitter written from the statement (occurrences of 00 00 01, each absorbing one preceding unconsumed 00); every string of length <= {mux_len} over {{00,01,02}} additionally submitted as a delta frame to an H.264 and an H.265 muxer and the stored sample read back; {ncons} constructive inputs (all lists of <= 3 units over bodies {{1 byte, ending 00, ending 00 00, containing 00 00 03, empty}} x 3/4-byte start code per unit x leading {{none, 09, 00, 00 00}} x 0-2 trailing zeros); a scaling family (first unit of every length 1..={scale_n} x 3 fillers x 3/4-byte start codes x 0-2 junk bytes, through the converters and the muxers); a unit-count family (1..=40 short units; every 3/4-byte start-code assignment up to 8 units, four regular patterns beyond; 3 body-length patterns; with/without leading junk and trailing zeros); ADTS: all 8192 frame lengths x protection flag x buffer length {{fl-1, fl, fl+1, fl+9}} x 3 header-field variants through write_audio + finish, stored sample read back; 108 pairs of ADTS frames in one stream (protection x header variant x length for either frame). Distinct by output bytes."),
+            rule: format!("every byte string of length <= {l3} over {{00,01,02}} and <= {l5} over {{00,01,03,65,FF}} through AnnexBNalIter, annexb_to_avcc and hevc_annexb_to_hvcc, compared with a reference splitter written from the statement (occurrences of 00 00 01, each absorbing one preceding unconsumed 00); every string of length <= {mux_len} over {{00,01,02}} additionally submitted as a delta frame to an H.264 and an H.265 muxer and the stored sample read back; {ncons} constructive inputs (all lists of <= 3 units over bodies {{1 byte, ending 00, ending 00 00, containing 00 00 03, empty}} x 3/4-byte start code per unit x leading {{none, 09, 00, 00 00}} x 0-2 trailing zeros); a scaling family (first unit of every length 1..={scale_n} x 3 fillers x 3/4-byte start codes x 0-2 junk bytes, through the converters and the muxers); a unit-count family (1..=40 short units; every 3/4-byte start-code assignment up to 8 units, four regular patterns beyond; 3 body-length patterns; with/without leading junk and trailing zeros); ADTS: all 8192 frame lengths x protection flag x buffer length {{fl-1, fl, fl+1, fl+9}} x 3 header-field variants through write_audio + finish, stored sample read back; 216 pairs of ADTS frames in one stream (protection x header variant x length for either frame x the second frame later or on the same tick). Distinct by output bytes."),
             bound: format!("strings <= {l3} / {l5} bytes; unit lengths 1..={scale_n}; ADTS exhaustive in frame length"),
             exhaustive: true,
             assumptions: vec!["the reference splitter (oracle/src/refmodel.rs) is the statement's definition".into()],
